@@ -120,12 +120,14 @@ def _pool_query(subj, X, y, ml, classes, cand, bs):
             return ("exc", type(e).__name__, str(e)[:120])
 
 
-def check_pool(acc, subj, pname, tier):
+def check_pool(acc, subj, pname, tier, only_lab=None):
     X = SP.pool(pname)
     encs = list(ENC) if subj.task == "clf" else list(REG_ENC)
     for li, lab in enumerate(SP.labelings(len(X))):
         u = PR.unlabeled(lab)
         if not u:
+            continue
+        if only_lab is not None and lab != only_lab:
             continue
         if tier == "quick" and subj.cost >= 3 and li % 2:
             continue
@@ -177,7 +179,7 @@ def check_pool(acc, subj, pname, tier):
             acc.sample({"subject": subj.name, "pool": pname, "labels": list(lab), "encodings": encs}, limit=1)
 
 
-def check_clf(acc, subj, tier):
+def check_clf(acc, subj, tier, only_lab=None):
     X = np.array(M.TRAIN_POOLS["line4"], dtype=float)
     if subj.multi:
         X = X[:3]
@@ -206,6 +208,8 @@ def check_clf(acc, subj, tier):
             except Exception as e:
                 return ("exc", type(e).__name__, str(e)[:120])
 
+    if only_lab is not None:
+        labs = [only_lab]
     for li, lab in enumerate(labs):
         for cmode in ("declared", "None"):
             base = run(lab, "float/nan", cmode)
@@ -251,7 +255,7 @@ def check_clf(acc, subj, tier):
             acc.sample({"classifier": subj.name, "labels": list(lab), "encodings": list(ENC)}, limit=1)
 
 
-def check_stream(acc, name, tier):
+def check_stream(acc, name, tier, only_lab=None):
     import skactiveml.stream as S
     from skactiveml.classifier import ParzenWindowClassifier
 
@@ -276,7 +280,7 @@ def check_stream(acc, name, tier):
             except Exception as e:
                 return ("exc", type(e).__name__, str(e)[:120])
 
-    for lab in SP.labelings(4):
+    for lab in ([only_lab] if only_lab is not None else SP.labelings(4)):
         base = run(lab, "float/nan")
         acc.transitions += 1
         if base[0] != "ok":
@@ -319,10 +323,11 @@ def run_shard(spec):
 def replay(spec):
     T.install()
     acc = Acc()
+    lab = tuple(None if v is None else int(v) for v in spec["labels"])
     if spec["what"] == "pool":
-        check_pool(acc, SP.BY_NAME[spec["name"]], spec["pool"], "thorough")
+        check_pool(acc, SP.BY_NAME[spec["name"]], spec["pool"], "thorough", only_lab=lab)
     elif spec["what"] == "clf":
-        check_clf(acc, M.CLF_BY_NAME[spec["name"]], "thorough")
+        check_clf(acc, M.CLF_BY_NAME[spec["name"]], "thorough", only_lab=lab)
     else:
-        check_stream(acc, spec["name"], "thorough")
+        check_stream(acc, spec["name"], "thorough", only_lab=lab)
     return [(s, k) for (s, k, _p) in acc.groups]
